@@ -390,8 +390,9 @@ class ArMember(object):
         def nextline():
             # type: () -> Generator[bytes, None, None]
             line = self.readline()
-            if line:
+            while line:
                 yield line
+                line = self.readline()
 
         return iter(nextline())
 
